@@ -20,8 +20,7 @@ deriving Inhabited
 def Box.none : Box := ⟨Option.none, Option.none⟩
 
 def Box.outside (b : Box) (x : FVec) : Bool :=
-  (match b.lb with | some l => FVec.any2 (fun xi li => xi < li) x l | Option.none => false) ||
-  (match b.ub with | some u => FVec.any2 (fun xi ui => xi > ui) x u | Option.none => false)
+  (List.range x.size).any (fun i => Dist.outside1 (b.lb.map (·.get i)) (b.ub.map (·.get i)) (x.get i))
 
 /-- `misfit_bounds` -/
 def Box.misfitBounds (b : Box) (x : FVec) : Float := if b.outside x then finf else 0.0
